@@ -88,6 +88,9 @@ def run_C13(ctx):
             # sender and receiver goroutine on one stream: the handler echoes
             s = dict(s, echo=True, resp=[dict(m) for m in s["req"]])
         conc.append(s)
+    # broken peers (no terminator) on the shared clients: each failure must stay with its own call
+    for s in core.generate(ctx, "MC_Wire", "Gen_Wire_Drop.cfg", tag="gendrop")["scenarios"]:
+        conc.append(dict(s, shared=True, transport="mem"))
     ctx.rng.shuffle(conc)
     pool1 = ctx.path("pool-e2e.ndjson")
     tf = core.run_runner(ctx, "e2e", conc, tag="conc", args=["-workers", "64", "-pooltrace", pool1])
